@@ -340,7 +340,7 @@ fn large_size_history<V: TV>(m: usize, val: &dyn Fn(u64) -> V) -> Result<u64, St
         let mut multi: BTreeMap<u64, usize> = BTreeMap::new();
         multi.insert(V::get_max().to_b(), m);
         let mut steps = 0u64;
-        let mut step = |t: &mut MaxTracker<V>, mins: &mut Vec<V>, multi: &mut BTreeMap<u64, usize>, k: usize, v: V| -> Result<(), String> {
+        let step = |t: &mut MaxTracker<V>, mins: &mut Vec<V>, multi: &mut BTreeMap<u64, usize>, k: usize, v: V| -> Result<(), String> {
             t.update(k, v);
             if v < mins[k] {
                 let old = mins[k].to_b();
